@@ -204,7 +204,7 @@ func jobC09(c *rt.Ctx) {
 					if kind == "msg63" && vs.v != ref.Ph {
 						continue
 					}
-					comps = append(comps, comp{4, 0, 3, kind}, comp{4, 2, 1, kind}, comp{8, 5, 6, kind}, comp{72, 66, 70, kind}, comp{72, 69, 65, kind})
+					comps = append(comps, comp{4, 0, 3, kind}, comp{4, 2, 1, kind}, comp{8, 5, 6, kind}, comp{72, 66, 70, kind}, comp{72, 69, 65, kind}, comp{72, 66, 5, kind}, comp{136, 130, 70, kind}, comp{136, 130, 5, kind})
 				}
 				for _, cp := range comps {
 					entries := append([]triple{}, fillers(vs, cp.n)...)
